@@ -29,6 +29,24 @@ def planner_prop(props_files, finding_props, diff_fields=None, level="proof", **
     d.update(kw)
     return d
 
+SP_HEADER = """From Coq Require Import ZArith NArith List Bool Uint63 PArray.
+From OX Require Import Spaces.SpDecode.
+Open Scope uint63_scope.
+Open Scope array_scope.
+"""
+
+SPACE_COQ = ["Spaces/SpDecode.v"]
+
+def space_prop(props_files, finding_props, **kw):
+    d = {"coq_targets": SPACE_COQ + props_files, "props_files": props_files, "finding_props": finding_props,
+         "diff_fields": None, "level": "proof",
+         "rule": ("cases = operations of the six real spaces on a structured lattice of special values (0, +-pi, +-pi+-ulp, k pi/2, "
+                  "non-canonical angles, antipodal / near-identical / threshold quaternions, large magnitudes, inexact decimals) plus "
+                  "random inputs, deterministic in (VERIF_SEED, family, index); non-trivial = non-zero distance, t != 0, or any "
+                  "bounds / constructor / sampling case; distinct by SHA-1 of the encoded case")}
+    d.update(kw)
+    return d
+
 PROPS = {
     "C01": planner_prop(["Props/C01.v"], ["C01"], diff_fields={1}),
     "C02": planner_prop(["Props/C02.v"], ["C02"], diff_fields={1}),
@@ -41,6 +59,11 @@ PROPS = {
                                     "the wall-clock part is measured exploration (stage 'timing': real timeouts 0..100 ms, feasible and sealed-goal worlds, "
                                     "no iteration budget) and labelled partial: the model cannot exhibit scheduler delays or the cost of user callbacks"),
     "C18": planner_prop(["Props/C18.v"], ["C18"]),
+    "C04": planner_prop(["Props/C04.v"], ["C04"], diff_fields={1}),
+    "C09": space_prop(["Props/C09.v"], ["C09"]),
+    "C10": space_prop(["Props/C10.v"], ["C10"]),
+    "C13": space_prop(["Props/C13.v"], ["C13"]),
+    "C14": space_prop(["Props/C14.v"], ["C14", "C11"]),
     "C15": planner_prop(["Props/C15.v"], ["C15"]),
     "C16": planner_prop(["Props/C16.v"], ["C16"]),
     "C17": planner_prop(["Props/C17.v"], ["C17"]),
@@ -48,6 +71,15 @@ PROPS = {
 
 FAMS_QUICK = "table:120,rv:10,so2:6,so3:6,se2:6,se3:5,css:5"
 FAMS_THOROUGH = "table:1500,rv:80,so2:50,so3:50,se2:50,se3:40,css:40"
+
+SPACE_STAGES = {
+    "C09": [("metric", ["metric"], True, False), ("metric:malformed", ["metric"], False, True)],
+    "C10": [("interp", ["interp"], True, False), ("interp:malformed", ["interp"], False, True)],
+    "C11": [("bounds+sampling", ["bounds", "sampling"], False, False)],
+    "C12": [("constructors", ["ctor"], False, False)],
+    "C13": [("compound", ["compound"], False, False), ("compound:malformed", ["compound"], False, True)],
+    "C14": [("sampling+gof", ["sampling", "gof"], False, False)],
+}
 
 def stages(pid, tier, seed, replay):
     """list of harness invocations for this property"""
@@ -63,6 +95,15 @@ def stages(pid, tier, seed, replay):
     for f in (corpus, common):
         if os.path.exists(f):
             st.append({"name": "corpus:" + os.path.basename(f), "kind": "planners", "args": ["--cases-file", f]})
+    if pid in SPACE_STAGES:
+        for name, fams_, ref, malformed in SPACE_STAGES[pid]:
+            count = (500 if tier == "quick" else 6000) // (3 if malformed else 1)
+            args = ["--seed", str(seed), "--families", ",".join(fams_), "--count", str(count)]
+            if malformed:
+                args.append("--malformed")
+            if tier != "quick":
+                args += ["--gof-n", "200000"]
+            st.append({"name": name, "kind": "spaces", "args": args, "header": SP_HEADER, "fn": "check_space_array", "ref": ref})
     fams = FAMS_QUICK if tier == "quick" else FAMS_THOROUGH
     if pid in PLANNER_STAGE_FLAGS:
         for name, flags in PLANNER_STAGE_FLAGS[pid]:
@@ -84,6 +125,7 @@ PLANNER_STAGE_FLAGS = {
     "C08": [("planners+faults+misuse", ["--faults", "--misuse"])],
     "C06": [("planners", []), ("timing", ["--timing", "--threads", "4"])],
     "C18": [("prm", ["--only-planner", "prm"]), ("prm:obstacle-free", ["--only-planner", "prm", "--free"])],
+    "C04": [("planners", []), ("planners:obstacle-free", ["--free"])],
     "C15": [("planners:snapshots", []), ("per-iteration:snapshots", ["--per-iteration"])],
     "C16": [("per-iteration", ["--per-iteration"])],
     "C17": [("rrtstar", ["--only-planner", "rrtstar"]), ("rrtstar:obstacle-free", ["--only-planner", "rrtstar", "--free"])],
@@ -94,6 +136,12 @@ SEARCH_FAMS = "table:4000,rv:500,so2:300,so3:300,se2:300,se3:200,css:200"
 
 def search_stages(pid, tier, seed):
     st = []
+    for name, fams_, ref, malformed in SPACE_STAGES.get(pid, []):
+        if malformed:
+            continue
+        for j in range(2 if tier == "quick" else 6):
+            st.append({"name": f"search:{name}:{j}", "kind": "spaces", "model": False,
+                       "args": ["--seed", str(seed + 1000 + j), "--families", ",".join(f for f in fams_ if f != "gof"), "--count", "20000"]})
     for k, (name, flags) in enumerate(PLANNER_STAGE_FLAGS.get(pid, [])):
         for j in range(3 if tier == "quick" else 10):
             st.append({"name": f"search:{name}:{j}", "kind": "planners", "model": False,
